@@ -36,6 +36,8 @@ class FieldArrayModel(FieldCompositeModel):
         # Holds a cached version of the sum constraint
         self.sum_expr_btor = None
         self.sum_expr = None
+        self.sum_expr_sz = -1
+        self.product_expr_sz = -1
         
         # Holds a cached version of the sum constraint
         self.product_expr_btor = None
@@ -138,8 +140,11 @@ class FieldArrayModel(FieldCompositeModel):
         self.size.set_used_rand(is_rand, level+1, in_set)
         
     def get_sum_expr(self):
-        if self.sum_expr is None:
+        # An expansion is valid for the size it was made for: the one made
+        # while the bounds are inferred precedes the solve of a random size
+        if self.sum_expr is None or self.sum_expr_sz != int(self.size.get_val()):
             # Build
+            self.sum_expr_sz = int(self.size.get_val())
 
             # Compute clog2 of overflow term to 
             # ensure that we properly size the result
@@ -181,8 +186,9 @@ class FieldArrayModel(FieldCompositeModel):
         return self.sum_expr_btor
     
     def get_product_expr(self):
-        if self.product_expr is None:
+        if self.product_expr is None or self.product_expr_sz != int(self.size.get_val()):
             # Build
+            self.product_expr_sz = int(self.size.get_val())
             
             # Force the result to be 32-bit, in order to 
             # match user expectation
